@@ -84,6 +84,8 @@ def parseEvent (tok : String) : Option Event :=
     else if c = '+' then (parsePK arg).map fun (p, _) => .appRef (peerOf p)
     else if c = '-' then (parsePK arg).map fun (p, _) => .appRelease (peerOf p)
     else if c = 'x' then (parsePK arg).map fun (p, _) => .disconnect (peerOf p)
+    else if c = 'h' then (if arg.contains '.' then none else (parseDgram arg).map fun p => .callHome (peerOf p))
+    else if c = 'j' then (if arg.contains '.' then none else (parseDgram arg).map fun p => .endCallHome (peerOf p))
     else if c = 'D' then (if arg = "0" then some (.delResource 0) else if arg = "1" then some (.delResource 1) else none)
     else if c = 'T' then arg.toNat?.map .advance
     else if c = 'm' then arg.toNat?.map .setMaxIdle
@@ -107,7 +109,8 @@ def showEvents (all : List SEvent) (fresh : List SEvent) : String :=
   if fresh.isEmpty then "-" else
   String.intercalate "," (fresh.map fun e => match e with
     | .new s => "N" ++ showIdx all s
-    | .del s => "D" ++ showIdx all s)
+    | .del s => "D" ++ showIdx all s
+    | .handed s => "X" ++ showIdx all s)
 
 def showState (st : St) : String :=
   if st.freed then "R- I0/0/0" else
@@ -119,7 +122,8 @@ def showState (st : St) : String :=
     -- `^n`: n nodes in session->delayqueue (datagram sessions); marked if M's counter and M's node objects disagree
     (if s.delayq = 0 then "" else "^" ++ toString s.delayq) ++
     (if !s.peer.reliable && s.delayq ≠ (st.partials.filter fun x => x.2 == s.sid).length then "!dq" else "") ++
-    (if s.peer.reliable && st.partials.any (fun x => x.2 == s.sid) then "*" else "") ++ (if s.closed then "z" else "")
+    (if s.peer.reliable && st.partials.any (fun x => x.2 == s.sid) then "*" else "") ++ (if s.closed then "z" else "") ++
+    (if s.client then "c" else "")
   "R" ++ (if rs.isEmpty then "-" else String.intercalate "," rs) ++
   " I" ++ toString (st.idleOn 0 COAP_PROTO_UDP).length ++ "/" ++ toString (st.idleOn 1 COAP_PROTO_UDP).length ++
   "/" ++ toString (st.idleOn 2 COAP_PROTO_TCP).length
@@ -130,7 +134,8 @@ def showLive (st : St) : String :=
   toString ((st.holders.filter fun h => isNode h.kind).length +
     (st.partials.filter fun x => st.sessions.any fun s => s.sid == x.2 && !s.peer.reliable).length) ++ "/" ++
   toString (st.holders.filter fun h => isAsync h.kind).length ++ "/" ++
-  toString (st.holders.filter fun h => isApp h.kind).length ++ " C" ++ toString st.now
+  -- references the application holds: coap_session_reference() and coap_session_set_type_client()
+  toString (st.holders.filter fun h => isApp h.kind || isHome h.kind).length ++ " C" ++ toString st.now
 
 def showOutcome (st : St) : Outcome → String
   | .handled sid => "h" ++ showIdx st.events sid
